@@ -57,4 +57,42 @@ func init() {
 		},
 		Quick: 40, Thorough: 600, Real: commonReal, Simulated: commonSim,
 	}
+	concAssume := []string{
+		"interleavings are explored at synchronisation, channel, clock and file-system operations (not between arbitrary memory accesses; unsynchronised accesses are C16's concern)",
+		"seeded sampling of schedules under several strategies (uniform, sticky, PCT-like, round-robin), not enumeration",
+		"linearizability is decided by porcupine per key with a 10 s budget; a timed-out partition is counted as inconclusive and never reported",
+	}
+	Props["C05"] = &PropSpec{
+		ID: "C05", Level: "exploration",
+		Technique: "deterministic simulation: seeded schedule search over 2-4 client tasks + flusher with porcupine linearizability checking per key against the map model",
+		Rule: "one case = 2-4 client tasks x 3-10 calls on 2-6 keys concentrated in 1-2 buckets (unique values), flusher on a 1 ms-1 s simulated interval and/or an explicit Flush client, small file limits, disk latency model; the scheduler decides every interleaving at lock/channel/clock/file-system operations; any error other than key-exists in immutable mode is a violation; the recorded history plus a final sequential read-back must be linearizable per key; " +
+			"non-trivial = at least one pair of overlapping calls from different clients that includes a write, on one key or on two keys of one bucket; distinct = distinct (plan hash, schedule hash)",
+		Nontrivial: func(o *RunOut) bool {
+			return o.Probes["overlap-same-key-write"]+o.Probes["overlap-same-bucket-write"] > 0
+		},
+		Assumptions: concAssume,
+		Quick:       45, Thorough: 900, Real: commonReal, Simulated: commonSim,
+	}
+	Props["C06"] = &PropSpec{
+		ID: "C06", Level: "exploration",
+		Technique: "deterministic simulation: seeded schedule search over client tasks + flusher + index-GC and primary-GC tasks (explicit cycles and background collectors), porcupine linearizability per key",
+		Rule: "as C05 on the multihash primary with tiny file limits, plus an index-GC task and a primary-GC task issuing cycles with think times (scan-free on/off, low-use thresholds 0..100) and/or the store's own background collectors on 10-100 ms simulated intervals with time limits, and stalled disk operations; no call may fail, no task may panic, and the history plus final read-back must be linearizable; " +
+			"non-trivial = at least one GC cycle ran and at least one overlapping pair of calls includes a write; distinct = distinct (plan hash, schedule hash)",
+		Nontrivial: func(o *RunOut) bool {
+			return o.Probes["index-gc"]+o.Probes["primary-gc"] > 0 && o.Probes["overlap-same-key-write"]+o.Probes["overlap-same-bucket-write"] > 0
+		},
+		Assumptions: concAssume,
+		Quick:       45, Thorough: 900, Real: commonReal, Simulated: commonSim,
+	}
+	Props["C02"] = &PropSpec{
+		ID: "C02", Level: "exploration",
+		Technique: "deterministic simulation: seeded histories with Close/reopen at arbitrary positions; each closed image is reopened three ways (snapshot kept / deleted / unusable) and contents and bucket tables compared with the map model and with each other",
+		Rule: "one case = generated history (incl. GC cycles, file roll-over) with up to 7 Close/reopen points; at each one: Close must return nil, a second Close must return nil and change no file, and the closed image is opened with the bucket snapshot kept, deleted and damaged (truncated / extra byte / zero length): every fork must show contents equal to the model (all keys + iteration) and bucket tables resolving to byte-identical record lists; " +
+			"non-trivial = at least one three-way fork on a store where two keys share a bucket or a file rolled over; distinct = distinct (plan hash, schedule hash)",
+		Nontrivial: func(o *RunOut) bool {
+			return o.Probes["reopen-fork"] > 0 && (o.Probes["bucket-shared"] > 0 || o.Probes["index-rolled"] > 0 || o.Probes["primary-rolled"] > 0)
+		},
+		Assumptions: []string{"seeded sampling of histories and reopen positions", "clean Close only (crashes are C03)"},
+		Quick:       40, Thorough: 600, Real: commonReal, Simulated: commonSim,
+	}
 }
